@@ -113,7 +113,16 @@ def check(ctx):
     # channel count and spatial size and compared call by call with fresh instances
     inst_items = [i for i in items if i[0] in entries.MODULE_KINDS]
     if ctx.quick:
-        inst_items = [i for k, i in enumerate(inst_items) if i[0] in writers or i[0].endswith('none') or k % 3 == 0]
+        light = [i for k, i in enumerate(inst_items) if not i[0].startswith(('dtcwt', 'scat')) and
+                 (i[0] in writers or i[0].endswith('none') or k % 3 == 0)]
+        heavy = {}
+        for i in inst_items:
+            if i[0].startswith(('dtcwt', 'scat')):
+                pd = dict(i[1])
+                key = (i[0], bool(pd.get('absent')), pd.get('combine_colour'))
+                if key not in heavy or pd['H'] * pd['W'] * pd.get('J', 1) < heavy[key][0]:
+                    heavy[key] = (pd['H'] * pd['W'] * pd.get('J', 1), (i[0], tuple(sorted(dict(pd, _light=True).items()))))
+        inst_items = light + [v[1] for v in heavy.values()]
     inst_cmp = 0
     for r in pmap(crosslib.w_instance_history, ctx.repo, [(i, ctx.repo) for i in inst_items], ctx.jobs):
         inst_cmp += r['cmp']
